@@ -192,7 +192,10 @@ def r5_stale_shape(ctx):
     """x._shape / x.shape saved in a local before x.ravel() is called and used afterwards: for a ragged *view* ravel() re-lays the data out and replaces the shape."""
     ix = ctx.index
     n = 0
-    for mod in (EA, "bionumpy.io.strops", "bionumpy.sequence.dna", "bionumpy.encodings.alphabet_encoding", "bionumpy.util.ragged_slice"):
+    from ..through_time import anchor_modules
+    mods = set(anchor_modules(ctx.prop)) | {EA, "bionumpy.io.strops", "bionumpy.sequence.dna", "bionumpy.sequence.kmers", "bionumpy.encodings.alphabet_encoding", "bionumpy.util.ragged_slice",
+                                            "bionumpy.string_array", "bionumpy.io.dump_csv"}
+    for mod in sorted(mods):
         if mod not in ix.modules:
             continue
         for fi in ix.module(mod).functions.values():
